@@ -173,8 +173,12 @@ class SQLBuilder(object):
     greatest_func_name = 'greatest'
     def __init__(builder, provider, ast):
         builder.provider = provider
-        builder.quote_name = provider.quote_name
         builder.paramstyle = paramstyle = provider.paramstyle
+        if paramstyle in ('format', 'pyformat'):
+            # the driver %-formats the whole statement: a % inside a quoted name must be doubled like any other literal %
+            quote_name = provider.quote_name
+            builder.quote_name = lambda name: quote_name(name).replace('%', '%%')
+        else: builder.quote_name = provider.quote_name
         builder.ast = ast
         builder.indent = 0
         builder.keys = {}
